@@ -16,7 +16,7 @@ BUILD = os.path.join(VERIF, ".build")
 TK_IMPL = os.path.join(BUILD, "cargo", "debug", "tk_impl")
 TK_CLI = os.path.join(BUILD, "cargo", "debug", "tackler")
 TK_MODEL = os.path.join(VERIF, "lean", ".lake", "build", "bin", "tk_model")
-NCPU = os.cpu_count() or 4
+NCPU = int(os.environ.get("VERIF_JOBS") or 0) or os.cpu_count() or 4   # VERIF_JOBS caps the driver processes
 
 decimal.getcontext().prec = 120
 MAX96 = 2 ** 96 - 1
@@ -309,6 +309,31 @@ def gen_txn(rng, cfg, opts, acct_pool, cluster=None):
     return t
 
 
+def _posting_value(p):
+    u = p.get("unit") or {}
+    cl = u.get("closing")
+    if cl:
+        return (D(p["amount"]) * D(cl["v"]) if cl["k"] == "@" else D(cl["v"])), cl["c"]
+    return D(p["amount"]), u.get("comm", "")
+
+
+def _rebalance(t, i, comm):
+    """rewrite the other postings so that the transaction would balance in `comm` given posting i's
+    (possibly illegal) value position: only the injected fault is then wrong with it"""
+    p = t["posts"]
+    v, _ = _posting_value(p[i])
+    unit = {"comm": comm, "opening": None, "closing": None} if comm else None
+    others = [dict(q, unit=unit) for j, q in enumerate(p) if j != i][:1]
+    if not others:
+        others = [{"acct": "rb:x", "amount": "1", "unit": unit, "comment": None}]
+    bal = -v
+    if bal == 0 or not dec_fits(bal):
+        t["posts"] = [p[i]] + [dict(others[0], amount="7"), dict(others[0], amount="-7", acct=others[0]["acct"] + ":n")]
+    else:
+        t["posts"] = [p[i], dict(others[0], amount=fmt_dec(bal))]
+    t["last"] = None
+
+
 FAULTS = ["unbalanced", "zero_posting", "mixed_comm", "price_same_comm", "neg_unit_price", "total_sign",
           "implicit_zero", "opening_only", "neg_opening", "dup_tags", "bad_geo"]
 
@@ -321,7 +346,25 @@ def inject_fault(rng, t, comms, kind=None):
         t["last"] = None
         p[0]["amount"] = fmt_dec(D(p[0]["amount"]) + D("0.01"))
     elif kind == "zero_posting":
-        p[rng.randrange(len(p))]["amount"] = rng.choice(["0", "0.00", "-0", "-0.0"])
+        i = rng.randrange(len(p))
+        p[i]["amount"] = rng.choice(["0", "0.00", "-0", "-0.0"])
+        # a zero amount combined with every value-position shape ('@', '=' with a non-zero total, '{..}')
+        shape = rng.choice(["keep", "keep", "unit", "total", "opening", "opening+total"])
+        if shape != "keep" and len(comms) > 1:
+            a, b = rng.sample(comms, 2)
+            tc = (p[i]["unit"] or {}).get("closing", {}) or {}
+            if shape == "unit":
+                p[i]["unit"] = {"comm": a, "opening": None, "closing": {"k": "@", "v": "2", "c": b}}
+            elif shape == "total":
+                p[i]["unit"] = {"comm": a, "opening": None, "closing": {"k": "=", "v": rng.choice(["5", "0", "-5"]), "c": b}}
+                _rebalance(t, i, b)
+            elif shape == "opening":
+                u = dict(p[i]["unit"] or {"comm": a, "opening": None, "closing": None})
+                u["opening"] = {"v": "3", "c": b}
+                p[i]["unit"] = u
+            else:
+                p[i]["unit"] = {"comm": a, "opening": {"v": "3", "c": b}, "closing": {"k": "=", "v": "5", "c": b}}
+                _rebalance(t, i, b)
     elif kind == "mixed_comm":
         i = rng.randrange(len(p))
         cur = p[i]["unit"]["comm"] if p[i]["unit"] else ""
@@ -330,17 +373,28 @@ def inject_fault(rng, t, comms, kind=None):
     elif kind == "price_same_comm":
         i = rng.randrange(len(p))
         cm = rng.choice(comms)
-        p[i]["unit"] = {"comm": cm, "opening": None, "closing": {"k": rng.choice("@="), "v": "2", "c": cm}}
+        opening = {"v": "1.2", "c": rng.choice(comms)} if rng.random() < 0.5 else None
+        k = rng.choice("@=")
+        p[i]["unit"] = {"comm": cm, "opening": opening, "closing": {"k": k, "v": "2", "c": cm}}
+        if rng.random() < 0.6:
+            # make the rest of the transaction consistent with the (illegal) price so that only this rule rejects it
+            _rebalance(t, i, cm)
     elif kind == "neg_unit_price":
         i = rng.randrange(len(p))
         a, b = rng.sample(comms, 2) if len(comms) > 1 else (comms[0], "ZZZ")
-        p[i]["unit"] = {"comm": a, "opening": None, "closing": {"k": "@", "v": "-2", "c": b}}
+        opening = {"v": "1.2", "c": rng.choice(comms)} if rng.random() < 0.4 else None
+        p[i]["unit"] = {"comm": a, "opening": opening, "closing": {"k": "@", "v": rng.choice(["-2", "-0.5", "-0.001"]), "c": b}}
+        if rng.random() < 0.6:
+            _rebalance(t, i, b)
     elif kind == "total_sign":
         i = rng.randrange(len(p))
         a, b = rng.sample(comms, 2) if len(comms) > 1 else (comms[0], "ZZZ")
         amt = p[i]["amount"]
         tot = "5" if amt.startswith("-") else "-5"
-        p[i]["unit"] = {"comm": a, "opening": None, "closing": {"k": "=", "v": tot, "c": b}}
+        opening = {"v": "1.2", "c": rng.choice(comms)} if rng.random() < 0.4 else None
+        p[i]["unit"] = {"comm": a, "opening": opening, "closing": {"k": "=", "v": tot, "c": b}}
+        if rng.random() < 0.6:
+            _rebalance(t, i, b)
     elif kind == "implicit_zero":
         # the others already cancel, then an amount-less last posting (F1)
         c = p[0]["unit"]
@@ -563,6 +617,89 @@ def parse_balance_report(text, title="BALANCE"):
             else:
                 rows.append(("?", ln, "?", "?"))
     return rows, deltas
+
+
+# ---------------------------------------------------------------------------------------------
+# register report
+
+_REG_HDR = None
+
+
+def parse_register_report(text, title="REGISTER"):
+    """-> list of entries {ts, code, desc, uuid, rows [(acct, amount, total, comm)]} from
+    RegisterReporter text (no price conversion columns), or None when the title is missing.
+    `ts` is the printed timestamp text (report zone); `code`/`desc`/`uuid` are None when not printed.
+    Only the part after the title line is read."""
+    global _REG_HDR
+    import re
+    if _REG_HDR is None:
+        _REG_HDR = re.compile(r"^(\d{4,}-\d{2}-\d{2}(?: \d{2}:\d{2}:\d{2}(?:\.\d+)?)?)(?: \(([^)]*)\))?(?: '(.*))?$")
+    lines = text.split("\n")
+    try:
+        i = lines.index(title)
+    except ValueError:
+        return None
+    j = i + 2
+    entries = []
+    cur = None
+    indent = " " * 12
+    while j < len(lines):
+        ln = lines[j]
+        j += 1
+        if cur is None:
+            if ln == "":
+                continue
+            m = _REG_HDR.match(ln)
+            if not m:
+                entries.append({"ts": None, "code": None, "desc": None, "uuid": None, "rows": [], "garbled": ln})
+                continue
+            cur = {"ts": m.group(1), "code": m.group(2), "desc": m.group(3), "uuid": None, "rows": []}
+            continue
+        if ln.startswith(indent + "# uuid: "):
+            cur["uuid"] = ln[len(indent) + 8:]
+        elif ln.startswith(indent + "# ") or ln.startswith(indent + "; ") or ln == indent + ";":
+            pass
+        elif ln.startswith(indent):
+            tok = ln.split()
+            if len(tok) == 3:
+                cur["rows"].append((tok[0], tok[1], tok[2], ""))
+            elif len(tok) == 4:
+                cur["rows"].append((tok[0], tok[1], tok[2], tok[3]))
+            else:
+                cur["rows"].append(("?", ln, "?", "?"))
+        elif (ln and set(ln) == {"-"}) or (ln == "" and not cur["rows"]):
+            # an entry ends with a rule as wide as its widest row (an entry without rows: an empty line)
+            entries.append(cur)
+            cur = None
+        else:
+            cur["garbled"] = ln
+    if cur is not None:
+        cur["garbled"] = "unterminated entry"
+        entries.append(cur)
+    return entries
+
+
+def register_ts_ns(ts_text):
+    """the instant (ns since the epoch) a printed register timestamp denotes in UTC"""
+    date, _, rest = ts_text.partition(" ")
+    y, mo, d = [int(x) for x in date.split("-")]
+    h = mi = s = frac = 0
+    if rest:
+        hms, _, f = rest.partition(".")
+        h, mi, s = [int(x) for x in hms.split(":")]
+        if f:
+            frac = int(f.ljust(9, "0")[:9])
+    return civil_to_ns(y, mo, d, h, mi, s, frac, 0)
+
+
+def floor_ns(ns, style):
+    """what a timestamp style keeps of an instant shown in UTC"""
+    ns = int(ns)
+    if style == "date":
+        return ns - ns % (86400 * 10 ** 9)
+    if style == "seconds":
+        return ns - ns % (10 ** 9)
+    return ns
 
 
 # ---------------------------------------------------------------------------------------------
